@@ -1,4 +1,5 @@
 from fw import PropertyCheck
+import fam_world
 import fam_swap
 
 
@@ -8,6 +9,7 @@ class Check(PropertyCheck):
             "q=y*a/(x+a) on either side of the 10^-18 window below an integer, at the 2^256 product overflows, "
             "and small exhaustive values (directed); log-uniform random triples.  Non-trivial = the implementation "
             "priced the swap (Ok).  Cases are de-duplicated by input.")
+    rule_world = 'plus world histories'
     modelled = ["bigint::U256 limb arithmetic is modelled as exact checked arithmetic on N (third-party code)",
                 "system level (pair contract swap through execute / cw20 hook / router) is covered by the world "
                 "correspondence family once built; function level is what the theorems here are about"]
@@ -15,7 +17,8 @@ class Check(PropertyCheck):
                    "known finding KF-ceil-window: inputs in the Coq class kf_c01 are exempted and counted"]
 
     def families(self, rng, tier):
-        return [("formulas.compute_swap", fam_swap.swap_cases(rng, tier))]
+        return [("formulas.compute_swap", fam_swap.swap_cases(rng, tier)),
+                ("world.general", fam_world.general_histories(rng, tier, n_hist={"quick": 5, "thorough": 50}[tier]))]
 
     def witnesses(self):
         w = fam_swap.WITNESSES
